@@ -1290,3 +1290,48 @@ package router
 //@   returnsite : [destroyed-flush-keeps-detached] scope == "destroyed" && old(caller in r.testaments) && old(r.testaments[caller].detached) != nil ==> caller in r.testaments && r.testaments[caller].detached == old(r.testaments[caller].detached)
 //@   returnsite : [detached-flush-keeps-destroyed] scope != "destroyed" && old(caller in r.testaments) && old(r.testaments[caller].destroyed) != nil ==> caller in r.testaments && r.testaments[caller].destroyed == old(r.testaments[caller].destroyed)
 //@   returnsite : [named-scope-flushed] caller in r.testaments ==> (scope == "destroyed" ==> r.testaments[caller].destroyed == nil) && (scope != "destroyed" ==> r.testaments[caller].detached == nil)
+
+// ---------------------------------------------------------------------------
+// Session meta procedures: the realm actions answer from the realm's client
+// table as it is at that moment (C18)
+
+//@ closure (r *realm) sessionCount 1
+//@   on realm
+//@   props C18
+//@   captures r != nil
+//@   sendsite answer int : [count-is-the-number-of-attached-sessions] m == len(r.clients)
+
+//@ closure (r *realm) sessionList 1
+//@   on realm
+//@   props C18
+//@   captures r != nil
+//@   sendsite answer []wamp.ID : [one-id-per-attached-session] len(m) == len(r.clients) && (forall k mathint :: 0 <= k && k < len(m) ==> m[k] in r.clients)
+//@   loop range r.clients
+//@     invariant [listed-are-attached] len(ids) == len(r.clients) && (forall k mathint :: 0 <= k && k < count ==> ids[k] in r.clients)
+
+//@ closure (r *realm) sessionGet 1
+//@   on realm
+//@   props C18
+//@   captures r != nil
+//@   sendsite answer *wamp.Session : [the-session-with-that-id-or-none] (sid in r.clients ==> m == r.clients[sid]) && (!(sid in r.clients) ==> m == nil)
+
+// Kill procedures end exactly the targeted sessions, with the goodbye built
+// from the given reason, and never the excluded (calling) session.
+//@ closure (r *realm) killSession 1
+//@   on realm
+//@   props C18
+//@   captures r != nil && goodbye != nil
+//@   callsite EndRecv : [only-the-session-with-that-id] sid in r.clients && arg0 == r.clients[sid] && arg1 == goodbye
+//@   sendsite answer error : [unknown-session-is-an-error] !isnil(m) && !(sid in r.clients)
+
+//@ closure (r *realm) killAllSessions 1
+//@   on realm
+//@   props C18
+//@   captures r != nil && goodbye != nil
+//@   callsite EndRecv : [every-session-but-the-excluded-one] sid != exclude && sid in r.clients && arg0 == r.clients[sid] && arg1 == goodbye
+
+//@ closure (r *realm) killSessionsByDetail 1
+//@   on realm
+//@   props C18
+//@   captures r != nil && goodbye != nil
+//@   callsite EndRecv : [never-the-excluded-or-the-meta-session] sid != exclude && arg0 != r.metaSess && sid in r.clients && arg0 == r.clients[sid] && arg1 == goodbye
